@@ -107,7 +107,8 @@ def lib_exc(name, text):
         return getattr(im, name)(text)
     if hasattr(idt, name):
         return getattr(idt, name)(text)
-    return {'RuntimeError': RuntimeError, 'KeyError': KeyError, 'ValueError': ValueError}[name](text)
+    return {'RuntimeError': RuntimeError, 'KeyError': KeyError, 'ValueError': ValueError, 'TypeError': TypeError,
+            'AttributeError': AttributeError}[name](text)
 
 
 class Call:
@@ -133,7 +134,8 @@ def make_meta_adapter(S, sc, log, cur_job):
             log['calls'].append(c)
             outcome = 'valid'
             if name == 'initialize':
-                outcome = {'ret': 'valid', 'provider': ('raise', 'MetadataProviderError'), 'other': ('raise', 'RuntimeError')}[sc.init_outcome]
+                outcome = {'ret': 'valid', 'provider': ('raise', 'MetadataProviderError'), 'other': ('raise', 'RuntimeError'),
+                           'type': ('raise', 'TypeError'), 'attr': ('raise', 'AttributeError')}[sc.init_outcome]
             elif rid is not None:
                 ln = log['lines_by_rid'][rid]
                 outcome = ln.outcome
@@ -195,7 +197,8 @@ def make_data_adapter(S, sc, log, cur_job):
                 raise lib_exc(outcome[1], '%s failed' % name)
 
         def initialize(self, parameters, config_file=None):
-            oc = {'ret': 'valid', 'provider': ('raise', 'DataProviderError'), 'other': ('raise', 'RuntimeError')}[sc.init_outcome]
+            oc = {'ret': 'valid', 'provider': ('raise', 'DataProviderError'), 'other': ('raise', 'RuntimeError'),
+                  'type': ('raise', 'TypeError'), 'attr': ('raise', 'AttributeError')}[sc.init_outcome]
             self._call('initialize', (parameters,), oc)
 
         def set_listener(self, event_listener):
